@@ -28,7 +28,7 @@ type ClientOpts struct {
 	ConnectTimeout int    `json:"connect_timeout_s"`
 	Logger         int    `json:"logger"` // 0 none, 1 recording, 2 failing
 	WebSocket      bool   `json:"websocket,omitempty"`
-	StreamDomain   string `json:"stream_domain,omitempty"` // TransportConfiguration.Domain set explicitly (a hosted domain: the stream is opened to it, the JID keeps its own)
+	StreamDomain   string `json:"stream_domain,omitempty"`   // TransportConfiguration.Domain set explicitly (a hosted domain: the stream is opened to it, the JID keeps its own)
 	TLSMax12       bool   `json:"tls_1_2_at_most,omitempty"` // the application's TLS config does not go beyond TLS 1.2
 	Address        string `json:"address,omitempty"`         // overrides the default address of the chosen transport
 }
